@@ -301,6 +301,9 @@ def run_base_capa(
     # Used to get the final set of anomalies after the loop.
     opt_anomaly_starts = np.repeat(np.nan, n)
     starts = np.array([], dtype=int)
+    # Length of the first prefix at which each start was found to be prunable.
+    never_pruned = n + min_segment_length + 1
+    start_prune_times = np.array([], dtype=int)
 
     # Before a collective anomaly can end, only point anomalies are possible.
     for t in range(min(min_segment_length - 1, n)):
@@ -320,6 +323,9 @@ def run_base_capa(
         # Collective anomalies
         t_array = np.array([t])
         starts = np.concatenate((starts, t_array - min_segment_length + 1))
+        start_prune_times = np.concatenate(
+            (start_prune_times, np.array([never_pruned]))
+        )
         ends = np.repeat(t + 1, len(starts))
         collective_savings = collective_saving.evaluate(np.column_stack((starts, ends)))
         opt_collective_saving, opt_start, candidate_savings = optimise_savings(
@@ -344,9 +350,16 @@ def run_base_capa(
         # Pruning the admissible starts
         penalty_sum = collective_alpha + collective_betas.sum()
         saving_too_low = candidate_savings + penalty_sum < opt_savings[t + 1]
+        # A start with too low saving is only dominated from the time the prefix it
+        # was pruned at can itself start an anomaly, min_segment_length samples later.
+        start_prune_times = np.where(
+            saving_too_low, np.minimum(start_prune_times, t + 1), start_prune_times
+        )
+        pruned = start_prune_times + min_segment_length <= t + 2
         too_long_segment = starts < t - max_segment_length + 2
-        prune = saving_too_low | too_long_segment
-        starts = starts[~prune]
+        keep = ~(pruned | too_long_segment)
+        starts = starts[keep]
+        start_prune_times = start_prune_times[keep]
 
     collective_anomalies, point_anomalies = get_anomalies(opt_anomaly_starts)
     return opt_savings[1:], collective_anomalies, point_anomalies
